@@ -136,6 +136,8 @@ func init() {
 			}
 			return scalar(f64, "(_ NaN 11 53)"), true
 		},
+		"math.Min": minMaxIntrinsic(true),
+		"math.Max": minMaxIntrinsic(false),
 		"math.Floor": roundIntrinsic("RTN"),
 		"math.Ceil":  roundIntrinsic("RTP"),
 		"math.Trunc": roundIntrinsic("RTZ"),
@@ -222,6 +224,35 @@ func init() {
 			t.store(st, l, t.materialize(a[1], pt.Elem()))
 			return Val{K: VNone}, true
 		}
+	}
+}
+
+// math.Min / math.Max with Go's special cases: NaN if either operand is NaN,
+// Min(-0, +0) = -0, Max(+0, -0) = +0.  (mode real: no NaN, no signed zero.)
+func minMaxIntrinsic(isMin bool) intrinsicFn {
+	return func(t *FnTrans, x *ssa.Call, a []Val, st *HeapState, reach string) (Val, bool) {
+		f64 := types.Typ[types.Float64]
+		u, v := t.materialize(a[0], f64), t.materialize(a[1], f64)
+		if u.K != VScalar || v.K != VScalar {
+			return Val{}, false
+		}
+		if t.mode.isReal() {
+			if isMin {
+				return scalar(f64, ite(sx("<=", u.S, v.S), u.S, v.S)), true
+			}
+			return scalar(f64, ite(sx(">=", u.S, v.S), u.S, v.S)), true
+		}
+		if !t.mode.isBV() {
+			return Val{}, false
+		}
+		nan := or(sx("fp.isNaN", u.S), sx("fp.isNaN", v.S))
+		var pick string
+		if isMin {
+			pick = ite(sx("fp.lt", u.S, v.S), u.S, ite(sx("fp.lt", v.S, u.S), v.S, ite(and(sx("fp.isZero", u.S), sx("fp.isNegative", u.S)), u.S, v.S)))
+		} else {
+			pick = ite(sx("fp.gt", u.S, v.S), u.S, ite(sx("fp.gt", v.S, u.S), v.S, ite(and(sx("fp.isZero", u.S), sx("fp.isPositive", u.S)), u.S, v.S)))
+		}
+		return scalar(f64, ite(nan, "(_ NaN 11 53)", pick)), true
 	}
 }
 
